@@ -79,6 +79,61 @@ int main(void) {
             else printf("%s\n", qv_sig == SIGALRM ? "TIMEOUT" : "CRASH");
             guard_free(g); fflush(stdout); continue;
         }
+        if (!strcmp(op, "big")) {
+            /* big <slots> <vlen>: a table of that many slots (beyond the range of a short) between inaccessible pages, filled with
+               keys k<i> and values of vlen bytes until it refuses; self-checking (no model in lockstep): every stored key reads back
+               its bytes, the header counters equal a census of the slots, every link stays inside the table and every chain ends;
+               then every other key is deleted, the table refilled, copied to another address and read through a fresh handle. */
+            int m = atoi(a1); size_t vl = (size_t)atoi(a2); size_t ms = qhasharr_calculate_memsize(m);
+            guard_t g = guard_alloc(ms, 0); const char *bad = NULL; static char what[160]; int stored = 0, nput = 0;
+            if (QV_TRY(120)) {
+                qhasharr_t *h = qhasharr(g.p, ms); unsigned char *v = malloc(vl + 1); char kb[32]; char *present = calloc((size_t)m + 16, 1);
+                #define BIGVAL(i) do { for (size_t j = 0; j < vl; j++) v[j] = (unsigned char)((i) * 131 + j * 7 + ((i) >> 8)); } while (0)
+                #define BIGFAIL(...) do { snprintf(what, sizeof what, __VA_ARGS__); bad = what; goto bigdone; } while (0)
+                if (!h) BIGFAIL("constructor refused %d slots", m);
+                for (int round = 0; round < 2; round++) {
+                    for (int i = 0; i < m + 8; i++) {
+                        if (round == 1 && (i & 1)) continue;
+                        sprintf(kb, "k%d", i); BIGVAL(i);
+                        if (!qhasharr_put(h, kb, v, vl)) { if (errno != ENOBUFS) BIGFAIL("put %s: errno %d", kb, errno); present[i] = present[i] ? 2 : 0; break; }   /* a refused put leaves its own key absent or unchanged (2: either) */
+                        present[i] = 1; if (i + 1 > nput) nput = i + 1;
+                    }
+                    /* census */
+                    qhasharr_data_t *d = h->data; qhasharr_slot_t *s = (qhasharr_slot_t *)((char *)d + sizeof(qhasharr_data_t));
+                    int used = 0, nkeys2 = 0;
+                    for (int i = 0; i < m; i++) {
+                        if (s[i].count == 0) continue;
+                        used++; if (s[i].count > 0 || s[i].count == -1) nkeys2++;
+                        if (s[i].link != -1 && (s[i].link < 0 || s[i].link >= m)) BIGFAIL("slot %d links to %d, outside the table of %d slots", i, s[i].link, m);
+                        if (s[i].link != -1 && s[s[i].link].count != -2) BIGFAIL("slot %d links to slot %d which is not a continuation block", i, s[i].link);
+                    }
+                    if (used != d->usedslots || nkeys2 != d->num) BIGFAIL("header says %d slots / %d keys, the slots say %d / %d", d->usedslots, d->num, used, nkeys2);
+                    stored = 0;
+                    for (int i = 0; i < nput; i++) {
+                        sprintf(kb, "k%d", i); BIGVAL(i); size_t ds = 0; void *r = qhasharr_get(h, kb, &ds);
+                        if (present[i] == 2) { if (r) { free(r); stored++; } continue; }
+                        if (!r) { if (!present[i]) continue; BIGFAIL("key %s not found after the fill", kb); }
+                        if (!present[i]) { free(r); BIGFAIL("key %s found although it was removed", kb); }
+                        if (ds != vl || memcmp(r, v, vl)) { free(r); BIGFAIL("key %s: value differs from what was put", kb); }
+                        free(r); stored++;
+                    }
+                    if (stored != d->num) BIGFAIL("%d keys read back, header counts %d", stored, d->num);
+                    if (round == 0) for (int i = 1; i < nput; i += 2) { sprintf(kb, "k%d", i); if (!qhasharr_remove(h, kb)) BIGFAIL("remove %s failed", kb); present[i] = 0; }
+                }
+                {   /* the image means the same at another address */
+                    guard_t g2 = guard_alloc(ms + 8, 0); unsigned char *nm = g2.p + 3; memcpy(nm, g.p, ms); memset(g.p, 0xDD, ms);
+                    qhasharr_t *h2 = qhasharr(nm, 0);
+                    if (!h2) { guard_free(g2); BIGFAIL("a second handle does not attach to the copied image"); }
+                    for (int i = 0; i < nput; i++) { if (present[i] != 1) continue; sprintf(kb, "k%d", i); BIGVAL(i); size_t ds = 0; void *r = qhasharr_get(h2, kb, &ds);
+                        if (!r || ds != vl || memcmp(r, v, vl)) { free(r); guard_free(g2); BIGFAIL("key %s differs when read from the relocated image", kb); } free(r); }
+                    qhasharr_free(h2); guard_free(g2);
+                }
+              bigdone:
+                QV_END; free(v); free(present); if (h) qhasharr_free(h);
+                if (bad) printf("big FAIL %s\n", bad); else printf("big ok\n");
+            } else printf("big %s\n", qv_sig == SIGALRM ? "TIMEOUT" : "CRASH");
+            guard_free(g); fflush(stdout); continue;
+        }
         if (!strcmp(op, "raw")) { printf("raw %016llx\n", rawsum()); fflush(stdout); continue; }
         if (refused) { printf("ATTACH-REFUSED\n"); fflush(stdout); continue; }
         if (dead) { printf("DEAD\n"); continue; }
